@@ -27,22 +27,31 @@ theorem gen_skel_count_down : skel_count_down = Skel.count_down := by decide
 theorem gen_skel_latch_ctor : skel_latch_ctor = Skel.latch_ctor := by decide
 
 /-- constants and branch shapes: READY is bit 31 of a 32-bit word, SEALED is the all-ones pointer,
-waiters add exactly one, the setter wakes iff the old word was non-zero, the clamp and the expiry
+waiters set exactly bit 0, the setter wakes iff the old word was non-zero, the clamp and the expiry
 test of `wait_for` are at zero, the latch fires at zero with value 0. -/
 theorem gen_constants :
     readyMask = 2 ^ 31 ∧ sealedHead = 2 ^ 64 - 1 ∧ sizeofFutexWord = 4 ∧ sizeofHead = 8 ∧ sizeofCount = 8 ∧
     futexNeedCreate = 0 ∧ wakeIfWaitersAbove = 0 ∧
-    waitAddOperand = 1 ∧ waitAddLocalBump = 1 ∧ waitForAddOperand = 1 ∧ waitForAddLocalBump = 1 ∧
+    waitOrOperand = 1 ∧ waitOrLocalMask = 1 ∧ waitForOrOperand = 1 ∧ waitForOrLocalMask = 1 ∧
     timeoutExpiredAtMost = 0 ∧ timeoutClampLow = 0 ∧ waitForSlowFinal = true ∧ waitForFast = true ∧
     latchFireAt = 0 ∧ latchValue = 0 := by decide
+
+/-- the waiter mark in the futex word is a flag set with `fetch_or` in both slow paths — not a counter
+incremented with `fetch_add`, which is never decremented by a `wait_for` that times out and carries
+into READY_MASK after 2^31 waits (the defect fixed by /repo e39f62f; harness mode `wrap`). -/
+theorem gen_waiter_flag :
+    skel_wait_slow.head? = some (.rmw "fetch_or" "_futex.value()" .acq) ∧
+    skel_wait_for_slow.getD 1 (.call "") = .rmw "fetch_or" "_futex.value()" .acq ∧
+    (skel_wait_slow ++ skel_wait_for_slow).all (fun x => match x with | .rmw op _ _ => op == "fetch_or" | _ => true) = true := by
+  decide
 
 /-- the orders publication rests on: the seal releases and acquires, the READY exchange releases,
 every load / RMW through which a reader learns "ready" acquires, the registration CAS releases on
 success and acquires on failure, the latch decrement is acq_rel. -/
 theorem gen_orders :
     ordSeal.releases = true ∧ ordSeal.acquires = true ∧ ordFutexXchg.releases = true ∧
-    ordGetLoad.acquires = true ∧ ordWaitForLoad.acquires = true ∧ ordWaitAdd.acquires = true ∧
-    ordWaitLoad.acquires = true ∧ ordWaitForAdd.acquires = true ∧ ordWaitForSlowLoad.acquires = true ∧
+    ordGetLoad.acquires = true ∧ ordWaitForLoad.acquires = true ∧ ordWaitRmw.acquires = true ∧
+    ordWaitLoad.acquires = true ∧ ordWaitForRmw.acquires = true ∧ ordWaitForSlowLoad.acquires = true ∧
     ordRegLoad.acquires = true ∧ ordRegCasSucc.releases = true ∧ ordRegCasFail.acquires = true ∧
     ordFutureReady.acquires = true ∧ ordCountSub.releases = true ∧ ordCountSub.acquires = true := by decide
 
@@ -53,13 +62,11 @@ setter (or the `count_down`s of a latch) with any number of threads calling `get
 `int64_t` τ), `on_finish`/`then`, `ready` on copies of the future, any number of times; spurious futex
 wake-ups and spurious weak-CAS failures included; the clock advances arbitrarily.
 
-`NoWrap s` (fewer than 2^31 slow-path waits so far) is needed exactly where a reader relies on the
-READY bit of the futex word: the waiter count in the low 31 bits is never decremented, so 2^31
-`wait_for` calls that time out turn the count into READY (harness mode `wrap` shows it on the real
-code).  The callback theorems and `wait_for = false` need no such hypothesis. -/
+The futex word only ever holds 0, 1, READY, READY|1 (`InvF`), so no hypothesis on the number of
+waits is needed (before the fix e39f62f the low bits were a never-decremented counter and every
+READY-dependent theorem needed `adds < 2^31`). -/
 
 abbrev Reach (s : State) : Prop := Reachable Init Step s
-def NoWrap (s : State) : Prop := s.adds < 2 ^ 31
 
 /-- the value storage holds the argument of `set_value` (or nothing yet), and is written at most once -/
 theorem fut_value_once {s : State} (hr : Reach s) :
@@ -136,15 +143,15 @@ theorem fut_cb_exactly_once {s : State} (hr : Reach s) (id : Nat)
 
 /-- **publication**: every read of the value by a getter or a callback, and every read of a callback
 node by the setter, is ordered after the corresponding write by the release/acquire edges the code has. -/
-theorem fut_publication_hb {s : State} (hr : Reach s) (hnw : NoWrap s) : s.unsync = false :=
-  (InvH.reach hr hnw).unsync
+theorem fut_publication_hb {s : State} (hr : Reach s) : s.unsync = false :=
+  (InvH.reach hr).unsync
 
 /-- **get** (`fut_get_value`): `get()` returns only after READY was published, and what the caller
 reads is the value passed to `set_value`. -/
-theorem fut_get_value {s : State} (hr : Reach s) (hnw : NoWrap s) (t : Nat) (x : Option Nat)
+theorem fut_get_value {s : State} (hr : Reach s) (t : Nat) (x : Option Nat)
     (h : s.result t = some (.got x)) : x = s.setVal ∧ x.isSome = true ∧ s.head = none := by
   have hS := InvS.reach hr
-  obtain ⟨h1, h2, h3⟩ := (InvR.reach hr hnw).resG t x h
+  obtain ⟨h1, h2, h3⟩ := (InvR.reach hr).resG t x h
   have hc : s.constructs = 1 := by
     have := hS.cons_le
     by_cases h0 : s.constructs = 0
@@ -154,10 +161,10 @@ theorem fut_get_value {s : State} (hr : Reach s) (hnw : NoWrap s) (t : Nat) (x :
   exact ⟨(hS.storage_some hc).1, h2, hS.head_none.mpr (hS.xchg_seal h3)⟩
 
 /-- a thread about to return from `get()` has observed READY after the constructor and the seal -/
-theorem fut_get_only_after_ready {s : State} (hr : Reach s) (hnw : NoWrap s) (t : Nat) (h : s.pc t = .gR) :
+theorem fut_get_only_after_ready {s : State} (hr : Reach s) (t : Nat) (h : s.pc t = .gR) :
     s.xchgDone = true ∧ s.head = none ∧ s.storage = s.setVal ∧ s.setVal.isSome = true := by
   have hS := InvS.reach hr
-  have hx := (InvF.reach hr hnw).gR t h
+  have hx := (InvF.reach hr).gR t h
   have hs := hS.xchg_seal hx
   have hc : s.constructs = 1 := by have := hS.cons_le; have := hS.seals_le; omega
   exact ⟨hx, hS.head_none.mpr hs, hS.storage_some hc⟩
@@ -165,9 +172,9 @@ theorem fut_get_only_after_ready {s : State} (hr : Reach s) (hnw : NoWrap s) (t 
 /-- **no lost wake-up** (`fut_no_lost_wakeup`): a thread asleep in `futex_wait` (no `wake_all` since it
 fell asleep) either sleeps on a word the setter has not exchanged yet, or the setter is just about to
 call `wake_all`.  There is no state with READY published, the setter past its wake, and a sleeper. -/
-theorem fut_no_lost_wakeup {s : State} (hr : Reach s) (hnw : NoWrap s) (t : Nat) (ha : asleepIn s t = true) :
+theorem fut_no_lost_wakeup {s : State} (hr : Reach s) (t : Nat) (ha : asleepIn s t = true) :
     s.xchgDone = false ∨ ∃ u d, s.firer = some u ∧ s.pc u = .s3 d := by
-  have hF := InvF.reach hr hnw
+  have hF := InvF.reach hr
   have hS := InvS.reach hr
   cases hx : s.xchgDone
   · exact .inl rfl
@@ -187,19 +194,19 @@ theorem fut_no_lost_wakeup {s : State} (hr : Reach s) (hnw : NoWrap s) (t : Nat)
       exact ⟨u, _, rfl, hp⟩
 
 /-- after `set_value` has returned nobody is asleep -/
-theorem fut_no_sleeper_after_set {s : State} (hr : Reach s) (hnw : NoWrap s) (hd : s.setDone = true) (t : Nat) :
+theorem fut_no_sleeper_after_set {s : State} (hr : Reach s) (hd : s.setDone = true) (t : Nat) :
     asleepIn s t = false := by
   cases ha : asleepIn s t
   · rfl
-  · rcases fut_no_lost_wakeup hr hnw t ha with hx | ⟨u, d, hf, hp⟩
+  · rcases fut_no_lost_wakeup hr t ha with hx | ⟨u, d, hf, hp⟩
     · have := ((InvS.reach hr).done hd).1; rw [hx] at this; cases this
     · have := ((InvS.reach hr).done hd).2.2.2 u; rw [hp] at this; cases this
 
 /-- **no deadlock**: once `set_value` has returned every thread that is inside a call can take a step
 (without relying on spurious wake-ups) -/
-theorem fut_no_deadlock {s : State} (hr : Reach s) (hnw : NoWrap s) (hd : s.setDone = true)
+theorem fut_no_deadlock {s : State} (hr : Reach s) (hd : s.setDone = true)
     (addr : Nat → Nat) (t : Nat) (hp : s.pc t ≠ .idle) : (stepThread addr s t {}).isSome = true := by
-  have ha := fut_no_sleeper_after_set hr hnw hd t
+  have ha := fut_no_sleeper_after_set hr hd t
   unfold asleepIn at ha
   cases hpc : s.pc t <;> simp only [hpc] at ha hp <;> simp only [stepThread, hpc]
   case idle => exact absurd rfl hp
@@ -208,11 +215,11 @@ theorem fut_no_deadlock {s : State} (hr : Reach s) (hnw : NoWrap s) (hd : s.setD
 
 /-- **wait_for = true** (`fut_wait_for_sound`, first half): only if READY was observed, hence after
 the value was constructed and the list sealed. -/
-theorem fut_wait_for_true {s : State} (hr : Reach s) (hnw : NoWrap s) (t : Nat) (b : Bool) (st to n : Nat)
+theorem fut_wait_for_true {s : State} (hr : Reach s) (t : Nat) (b : Bool) (st to n : Nat)
     (h : s.result t = some (.waited true b st to n)) :
     s.xchgDone = true ∧ s.head = none ∧ s.storage = s.setVal ∧ s.setVal.isSome = true := by
   have hS := InvS.reach hr
-  have hx := (InvR.reach hr hnw).resT t b st to n h
+  have hx := (InvR.reach hr).resT t b st to n h
   have hs := hS.xchg_seal hx
   have hc : s.constructs = 1 := by have := hS.cons_le; have := hS.seals_le; omega
   exact ⟨hx, hS.head_none.mpr hs, hS.storage_some hc⟩
@@ -220,7 +227,7 @@ theorem fut_wait_for_true {s : State} (hr : Reach s) (hnw : NoWrap s) (t : Nat) 
 /-- **wait_for = false** (`fut_wait_for_sound`, second half): only from the slow path, and only if
 the clock value `n` the call read last is at least `start + timeout` (`start` = clock read at entry,
 `timeout = max 0 τ` as passed by `wait_for`), although `until_ns = start + timeout` is computed in
-wrap-around `int64_t`; the only assumption is that the clock reading is below 2^63 ns.  No NoWrap. -/
+wrap-around `int64_t`; the only assumption is that the clock reading is below 2^63 ns. -/
 theorem fut_wait_for_false {s : State} (hr : Reach s) (t : Nat) (b : Bool) (st to n : Nat)
     (h : s.result t = some (.waited false b st to n)) :
     b = true ∧ st ≤ n ∧ n ≤ s.now ∧ (n < 2 ^ 63 → st + to ≤ n) := by
@@ -238,16 +245,15 @@ theorem fut_wait_for_clamp (addr : Nat → Nat) (s s' : State) (t : Nat) (tau : 
 
 /-- **after set_value**: once READY is published, `get` goes straight to its return, `wait_for(τ)`
 returns `true` for every τ, `ready()` returns `true`, `on_finish` runs the callback inline. -/
-theorem fut_after_set {s : State} (hr : Reach s) (hnw : NoWrap s) (hx : s.xchgDone = true)
+theorem fut_after_set {s : State} (hr : Reach s) (hx : s.xchgDone = true)
     (addr : Nat → Nat) (t : Nat) (h : Hint) (s' : State) (l : Act) (hst : stepThread addr s t h = some (s', l)) :
     (s.pc t = .g0 → s'.pc t = .gR) ∧
     (∀ tau, s.pc t = .f0 tau → s'.pc t = .ret (.waited true false 0 0 0)) ∧
     (s.pc t = .q0 → s'.pc t = .ret (.ready true)) ∧
     (∀ id, s.pc t = .r0 id → s'.pc t = .rRun id) := by
-  have hF := InvF.reach hr hnw
+  have hF := InvF.reach hr
   have hS := InvS.reach hr
-  have hrd : hasReady s.futex = true := by
-    rw [(hF.word1 hx).2]; exact hasReady_ready (by have := (hF.word1 hx).1; unfold NoWrap at hnw; omega)
+  have hrd : hasReady s.futex = true := (wordReady_or (hF.word1 hx)).2.1
   have hh : s.head = none := hS.head_none.mpr (hS.xchg_seal hx)
   refine ⟨?_, ?_, ?_, ?_⟩
   · intro hp
@@ -264,10 +270,10 @@ theorem fut_after_set {s : State} (hr : Reach s) (hnw : NoWrap s) (hx : s.xchgDo
     obtain ⟨rfl, _⟩ := hst; simp
 
 /-- `ready()` returns `true` only after the list was sealed, i.e. after the value was constructed -/
-theorem fut_ready_true {s : State} (hr : Reach s) (hnw : NoWrap s) (t : Nat) (h : s.result t = some (.ready true)) :
+theorem fut_ready_true {s : State} (hr : Reach s) (t : Nat) (h : s.result t = some (.ready true)) :
     s.head = none ∧ s.storage = s.setVal ∧ s.setVal.isSome = true := by
   have hS := InvS.reach hr
-  have hh := (InvR.reach hr hnw).resReady t h
+  have hh := (InvR.reach hr).resReady t h
   have hs := hS.head_none.mp hh
   have hc : s.constructs = 1 := by have := hS.cons_le; have := hS.seals_le; omega
   exact ⟨hh, hS.storage_some hc⟩
@@ -323,11 +329,10 @@ def demo : Option State := runEvs (State.init none) demoEvs
 theorem demo_some : demo.isSome = true := by decide
 
 example : let s := demo.get demo_some
-    Reach s ∧ NoWrap s ∧ s.setDone = true ∧ s.regDone 0 = true ∧ s.regDone 1 = true ∧
+    Reach s ∧ s.setDone = true ∧ s.regDone 0 = true ∧ s.regDone 1 = true ∧
     s.runs 0 = [some 7] ∧ s.runs 1 = [some 7] ∧ s.result 3 = some (.got (some 7)) ∧ s.adds = 1 := by
-  refine ⟨runEvs_reach (init_reach none (by simp)) demoEvs (Option.some_get demo_some).symm, ?_, ?_⟩
-  · unfold NoWrap; decide
-  · decide
+  refine ⟨runEvs_reach (init_reach none (by simp)) demoEvs (Option.some_get demo_some).symm, ?_⟩
+  decide
 
 /-- a latch with count 3: `count_down(1)` by thread 1, `count_down(2)` by thread 2 fires; thread 3 polls
 `wait_for(5)` across a clock tick of 10 ns before that (returns false), then `ready()` afterwards -/
